@@ -1,6 +1,7 @@
 package main
 
 import (
+	"time"
 	"flag"
 	"fmt"
 	"reflect"
@@ -167,6 +168,15 @@ func mkfsOne(sz uint64, fill bool, useFree bool) (line string, oracle string) {
 			return line, msg
 		}
 	}
+	// ... and FILLED AND EMPTIED through normal operations (round 16, C15p): files written with 3-block WRITEs until the disk
+	// is full — where exactly the space runs out (in front of a data block, an index block, a second-level block) depends on
+	// the disk size —, everything removed, background freeing finished: every block of the data region is free again, in the
+	// allocator and on disk.  (Sizes with up to 1100 data blocks: the fill stays cheap.)
+	if useFree && sz-ds <= 1100 {
+		if msg := fillAndFree(srv, st, s, sz); msg != "" {
+			return line, msg
+		}
+	}
 	inUse := map[uint64]bool{}
 	for k := uint64(0); k < s.NBlockBitmap; k++ {
 		blk := st.Txn.Load(addr.MkAddr(uint64(s.BitmapBlockStart())+k, 0), common.NBITBLOCK).Data
@@ -314,4 +324,53 @@ func useAndFree(srv *nfs.Nfs, st *fstxn.FsState, s *super.FsSuper, sz uint64) st
 		}
 	}
 	return ""
+}
+
+// fillAndFree: see mkfsOne.
+func fillAndFree(srv *nfs.Nfs, st *fstxn.FsState, s *super.FsSuper, sz uint64) (msg string) {
+	ok := guardedCall(func() {
+		free0 := st.Balloc.NumFree()
+		bm0 := diskBitmap(st, s)
+		root := fh.MkRootFh3()
+		data := make([]byte, 3*4096)
+		for i := range data {
+			data[i] = 0x3c
+		}
+		var names []string
+		full := false
+		for f := 0; f < 4 && !full; f++ {
+			name := fmt.Sprintf("fill%d", f)
+			cr := srv.NFSPROC3_CREATE(nfstypes.CREATE3args{Where: nfstypes.Diropargs3{Dir: root, Name: nfstypes.Filename3(name)}})
+			if cr.Status != nfstypes.NFS3_OK {
+				break
+			}
+			names = append(names, name)
+			for off := uint64(0); off < 700*4096; off += 3 * 4096 {
+				w := srv.NFSPROC3_WRITE(nfstypes.WRITE3args{File: cr.Resok.Obj.Handle, Offset: nfstypes.Offset3(off), Count: 3 * 4096, Stable: nfstypes.FILE_SYNC, Data: data})
+				if w.Status != nfstypes.NFS3_OK || w.Resok.Count != 3*4096 {
+					full = true
+					break
+				}
+			}
+		}
+		atFull := st.Balloc.NumFree()
+		for _, name := range names {
+			srv.NFSPROC3_REMOVE(nfstypes.REMOVE3args{Object: nfstypes.Diropargs3{Dir: root, Name: nfstypes.Filename3(name)}})
+		}
+		for i := 0; i < 5000 && srv.VerifShrinker().VerifNthread() != 0; i++ {
+			time.Sleep(time.Millisecond)
+		}
+		st.Txn.Flush()
+		if f1 := st.Balloc.NumFree(); f1 != free0 {
+			msg = fmt.Sprintf("size %d: files written with 3-block WRITEs until the disk was full (%d blocks left free) and removed again: the allocator reports %d free blocks, before %d — %d block(s) of the data region [%d,%d) are lost", sz, atFull, f1, free0, int64(free0)-int64(f1), s.DataStart(), sz)
+			return
+		}
+		if d := bitDiff(bm0, diskBitmap(st, s)); len(d) > 0 {
+			msg = fmt.Sprintf("size %d: files written with 3-block WRITEs until the disk was full and removed again: the block bitmap on disk differs from the one before at %v", sz, d)
+		}
+	})
+	if !ok {
+		return fmt.Sprintf("size %d: filling the disk with 3-block WRITEs and removing the files panics or hangs", sz)
+	}
+	return msg
 }
